@@ -274,3 +274,6 @@ def run(ctx):
         if n < 3:
             raise AnchorMissing("expected the three encode sites of OutgoingTask::run (found %d)" % n)
 
+    with ctx.rule("C11.R8", "T7", "node and lane names written into an envelope are escaped character by character (nothing but the escapes changes)", floor=1) as r:
+        from rules.common import escape_text_rule
+        escape_text_rule(r, ctx)
